@@ -1348,7 +1348,17 @@ class FunctionScope(Scope):
                 assert (
                     self.parent_scope
                 ), "constrained value must have definition nodes or parent scope"
-                parent_val, _, _ = self.parent_scope.get(ctx.varname, None, ctx.state)
+                ref_var = self.referencing_value_vars[ctx.varname]
+                if isinstance(ref_var, ReferencingValue):
+                    # A global or nonlocal name lives in the scope it was declared
+                    # for, which need not be the nearest enclosing one.
+                    parent_val, _, _ = ref_var.scope.get(
+                        ref_var.name, None, ctx.state
+                    )
+                else:
+                    parent_val, _, _ = self.parent_scope.get(
+                        ctx.varname, None, ctx.state
+                    )
                 resolved = _constrain_value(
                     [parent_val],
                     val.constraints,
